@@ -2,6 +2,7 @@ package main
 
 import (
 	"fmt"
+	"math"
 	"sort"
 
 	"github.com/openacid/low/bitmap"
@@ -48,6 +49,18 @@ func init() {
 		k2, v2 := bitmap.FromStr32(s, from+w1, from+w1+w2)
 		k, v := bitmap.FromStr32(s, from, from+w1+w2)
 		return L(L(I32(k1), U(v1)), L(I32(k2), U(v2)), L(I32(k), U(v)))
+	}
+	// [alphabet, runs [[idx,count],...], from, h, dedup] -> run-length encoded PathsOf(expanded keys)
+	Exec["bmtree.PathsOf/runs"] = func(a []V) string {
+		keys := c11Expand(a[0].Strs(), a[1])
+		return c11RLE(bmtree.PathsOf(keys, a[2].I32(), a[3].I32(), a[4].Bool()))
+	}
+	// the same, two calls, both results rendered after the second
+	Exec["bmtree.PathsOf/runs/held"] = func(a []V) string {
+		al := a[0].Strs()
+		r1 := bmtree.PathsOf(c11Expand(al, a[1]), a[3].I32(), a[4].I32(), a[5].Bool())
+		r2 := bmtree.PathsOf(c11Expand(al, a[2]), a[3].I32(), a[4].I32(), a[5].Bool())
+		return L(c11RLE(r1), c11RLE(r2))
 	}
 	Register("C11", genC11)
 }
@@ -199,6 +212,165 @@ func c11Held(g *Gen) {
 	}
 }
 
+// c11Expand: runs [[idx,count],...] over an alphabet of keys -> the key list
+func c11Expand(al []string, runs V) []string {
+	keys := []string{}
+	for _, r := range runs.L {
+		idx, cnt := r.L[0].Int(), r.L[1].Int()
+		for j := 0; j < cnt; j++ {
+			keys = append(keys, al[idx])
+		}
+	}
+	return keys
+}
+
+// c11RLE: run-length encoding [[value,count],...] of a result
+func c11RLE(ps []uint64) string {
+	out := []string{}
+	for i := 0; i < len(ps); {
+		j := i
+		for j < len(ps) && ps[j] == ps[i] {
+			j++
+		}
+		out = append(out, L(U(ps[i]), Int(j-i)))
+		i = j
+	}
+	return L(out...)
+}
+
+func c11RunsText(runs [][2]int) string {
+	out := make([]string, len(runs))
+	for i, r := range runs {
+		out[i] = L(Int(r[0]), Int(r[1]))
+	}
+	return L(out...)
+}
+
+// c11Long: key lists of 1025..4100 keys in compact form (alphabet + runs), with runs of equal keys
+// straddling the multiples of 256/512/1024/2048, exact pairs at b-1/b, runs starting exactly at b,
+// both dedup flags, plus held pairs.  A batch implementation that converts chunks separately must
+// still compare across its chunk boundaries.
+func c11Long(g *Gen) {
+	al := [][]byte{{0x00}, {0x01}, {0x61}, {0x61, 0x62}, {0x62}, {0x80}, {0xff}, {0xff, 0xff}}
+	alText := ByteSlices(al)
+	total := func(runs [][2]int) int {
+		t := 0
+		for _, r := range runs {
+			t += r[1]
+		}
+		return t
+	}
+	// pattern builders: all return runs whose total is exactly n
+	fill := func(runs [][2]int, n int, next *int, maxRun int) [][2]int { // random runs up to n
+		for total(runs) < n {
+			c := g.R.Range(1, maxRun)
+			if t := total(runs); t+c > n {
+				c = n - t
+			}
+			runs = append(runs, [2]int{*next % len(al), c})
+			*next++
+		}
+		return runs
+	}
+	patterns := []func(n int) [][2]int{
+		func(n int) [][2]int { return [][2]int{{2, n}} }, // one run of n equal keys
+		func(n int) [][2]int { next := 0; return fill(nil, n, &next, 400) },
+		func(n int) [][2]int { next := 0; return fill(nil, n, &next, 60) },
+		func(n int) [][2]int { // singles, and exactly one equal pair at b-1/b for every multiple b of 256
+			runs := [][2]int{}
+			next := 0
+			for t := 0; t < n; {
+				c := 1
+				if (t+1)%256 == 0 && t+2 <= n {
+					c = 2
+				}
+				runs = append(runs, [2]int{next % len(al), c})
+				next++
+				t += c
+			}
+			return runs
+		},
+		func(n int) [][2]int { // runs that START exactly at the multiples of 512 (no pair across them)
+			runs := [][2]int{}
+			next := 0
+			for t := 0; t < n; {
+				c := 512
+				if t+c > n {
+					c = n - t
+				}
+				runs = append(runs, [2]int{next % len(al), c})
+				next++
+				t += c
+			}
+			return runs
+		},
+	}
+	ns := []int{1025, 1026, 2047, 2048, 2049, 3073, 4100}
+	if g.Thorough {
+		ns = append(ns, 1024, 1030, 1500, 2050, 3000, 3072, 4096, 4097)
+	}
+	for _, n := range ns {
+		for pi, pat := range patterns {
+			runs := pat(n)
+			for _, dd := range []bool{true, false} {
+				from := g.R.Pick(0, 0, 3, 8)
+				h := g.R.Pick(8, 16, 32)
+				g.Stat("pathsof-long")
+				g.Do("bmtree.PathsOf/runs", L(alText, c11RunsText(runs), Int(from), Int(h), B(dd)),
+					fmt.Sprintf("long/dd%v/p%d/n%d", dd, pi, n/1024))
+			}
+		}
+	}
+	// held: a long list, then another long / short one
+	for _, n := range []int{1025, 2049, 4100} {
+		for _, n2 := range []int{3, 1025, n + 1} {
+			next := 1
+			r1 := fill(nil, n, &next, 300)
+			r2 := fill(nil, n2, &next, 300)
+			for _, dd := range []bool{true, false} {
+				g.Stat("pathsof-long-held")
+				g.Do("bmtree.PathsOf/runs/held", L(alText, c11RunsText(r1), c11RunsText(r2), Int(0), Int(16), B(dd)),
+					fmt.Sprintf("longheld/dd%v/n%d", dd, n/1024))
+			}
+		}
+	}
+}
+
+// c11Far: start bits within 40 of MaxInt32, where from + w (PathOf's own frombit+height) wraps negative:
+// every from in [MaxInt32-40, MaxInt32] x every width/height 0..32; FromStr32 is called as PathOf calls it,
+// with tobit = int32(from + w) (so tobit < frombit when the sum wraps).
+func c11Far(g *Gen) {
+	strs := [][]byte{{}, {0x61}, {0xff, 0xa5}, {0xff, 0xff, 0xff, 0xff, 0xff, 0xff}}
+	for _, s := range strs {
+		sv := Bytes(s)
+		for from := math.MaxInt32 - 40; from <= math.MaxInt32; from++ {
+			for w := 0; w <= 32; w++ {
+				to := int(int32(from) + int32(w)) // wraps
+				g.Stat("far-wrap")
+				g.Do("bitmap.FromStr32", L(sv, Int(from), Int(to)), "")
+				if len(s) <= 2 || w%4 == 0 || w >= 31 || g.Thorough {
+					g.Do("bmtree.PathOf", L(sv, Int(from), Int(w)), "")
+					g.Do("bmtree.PathOf/str", L(sv, Int(from), Int(w)), "")
+					g.Do("bmtree.PathOf/fields", L(sv, Int(from), Int(w)), "")
+				}
+			}
+		}
+	}
+	keys := ByteSlices([][]byte{{0x61}, {0x61}, {0x62}, {}, {0xff, 0xff, 0xff, 0xff}})
+	for from := math.MaxInt32 - 40; from <= math.MaxInt32; from++ {
+		for h := 0; h <= 32; h++ {
+			if h%3 != 0 && h < 31 && !g.Thorough {
+				continue
+			}
+			for _, dd := range []bool{true, false} {
+				g.Stat("far-wrap-pathsof")
+				g.Do("bmtree.PathsOf", L(keys, Int(from), Int(h), B(dd)), "")
+			}
+		}
+	}
+	g.Exhaust = append(g.Exhaust, "bitmap.FromStr32(s, from, int32(from+w)), bmtree.PathOf (+PathStr, +fields): 4 short strings x every from in [MaxInt32-40, MaxInt32] x every w in 0..32 (the sum wraps for from > MaxInt32-w)")
+}
+
 // c11Sorted: key sets sorted in Go's string order whose first `from` bits are equal (the way a trie level is
 // built for the keys below one node): a common byte prefix, then a byte whose top from%8 bits are common, then
 // tails that share prefixes, repeat, or are proper prefixes of one another.
@@ -250,6 +422,10 @@ func c11Sorted(g *Gen) {
 func genC11(g *Gen) {
 	// (0) held results first (hidden state: reused scratch buffers), over ascending sizes
 	c11Held(g)
+
+	// (0b) long key lists (more than 1024 keys) in compact form, and the far end of int32
+	c11Long(g)
+	c11Far(g)
 
 	// (1) exhaustive: all strings of length 0..L over {00,80,ff,01,a5} x all from in [0, min(56, 8n+9)] and 56
 	//     x all w in [0,32]; FromStr32, PathOf and PathStr(PathOf)
